@@ -99,27 +99,52 @@ Check c06_bracket_keeps_sign_change : forall (f : R -> res R) lo init hi tol cap
 Print Assumptions c06_bracket_keeps_sign_change.
 
 (* PARTIAL converse: at the loop exit the bracket has been halved once per non-exact body, holds a
-   root z of the continuous target, the candidate is within (hi-lo)/2^iter of z, and is a root on
-   the `exact` exit.  MISSING: that for a moderately scaled target and an ample budget the loop
-   leaves before the cap and the 1e-4 gate passes; that depends on the float stopping rule and is
-   checked by the oracle only (which lists the two failing input classes F-C06-LOOSE-TOL and
-   F-C06-STALE-ZERO). *)
+   root z of the continuous target, the candidate is within (hi-lo)/2^iter of z, is a root on the
+   `exact` exit, and (after repair 8dfb6bc) on the tolerance exit is non-zero with z within tol
+   percent of it.  MISSING: that for a moderately scaled target and an ample budget the loop
+   leaves before the cap; that depends on the float stopping rule and is checked by the oracle only. *)
 Theorem c06_finds_root_partial : forall (g : R -> R) lo init hi tol cap r,
   continuity g -> lo <= hi -> g lo * g hi <= 0 ->
   bis_loop (fun x => Ok (g x)) tol cap cap (bis_start {| b_lower := lo; b_init := init; b_upper := hi |}) = Ok r ->
   bs_upper r - bs_lower r = (hi - lo) / 2 ^ (if bs_exact r then bs_iter r else S (bs_iter r)) /\
   (bs_exact r = true -> g (bs_x r) = 0) /\
+  lo <= bs_x r <= hi /\
   exists z, g z = 0 /\ lo <= z <= hi /\ bs_lower r <= z <= bs_upper r /\
-            Rabs (bs_x r - z) <= (hi - lo) / 2 ^ bs_iter r.
+            Rabs (bs_x r - z) <= (hi - lo) / 2 ^ bs_iter r /\
+            (bs_exact r = false -> (bs_iter r < cap)%nat ->
+               bs_x r <> 0 /\ Rabs (bs_x r - z) * 100 < tol * Rabs (bs_x r)).
 Proof. exact Proofs.Bisect.c06_finds_root_partial. Qed.
 Check c06_finds_root_partial : forall (g : R -> R) lo init hi tol cap r,
   continuity g -> lo <= hi -> g lo * g hi <= 0 ->
   bis_loop (fun x => Ok (g x)) tol cap cap (bis_start {| b_lower := lo; b_init := init; b_upper := hi |}) = Ok r ->
   bs_upper r - bs_lower r = (hi - lo) / 2 ^ (if bs_exact r then bs_iter r else S (bs_iter r)) /\
   (bs_exact r = true -> g (bs_x r) = 0) /\
+  lo <= bs_x r <= hi /\
   exists z, g z = 0 /\ lo <= z <= hi /\ bs_lower r <= z <= bs_upper r /\
-            Rabs (bs_x r - z) <= (hi - lo) / 2 ^ bs_iter r.
+            Rabs (bs_x r - z) <= (hi - lo) / 2 ^ bs_iter r /\
+            (bs_exact r = false -> (bs_iter r < cap)%nat ->
+               bs_x r <> 0 /\ Rabs (bs_x r - z) * 100 < tol * Rabs (bs_x r)).
 Print Assumptions c06_finds_root_partial.
+
+(* ... and the exit before the cap is ALL that is missing: if the loop leaves with iter < cap and the
+   target is L-Lipschitz on the bracket with L * tol% * max|x| < 1e-4 (the complement of the input
+   class of the known finding F-C06-LOOSE-TOL), the residual gate passes and Ok is returned *)
+Theorem c06_exit_before_cap_is_ok : forall (g : R -> R) lo init hi tol cap r L X,
+  continuity g -> lo <= init <= hi -> g lo * g hi <= 0 ->
+  bis_loop (fun x => Ok (g x)) tol cap cap (bis_start {| b_lower := lo; b_init := init; b_upper := hi |}) = Ok r ->
+  (bs_iter r < cap)%nat -> 0 <= L ->
+  (forall a b, lo <= a <= hi -> lo <= b <= hi -> Rabs (g a - g b) <= L * Rabs (a - b)) ->
+  (forall x, lo <= x <= hi -> Rabs x <= X) -> L * (tol / 100 * X) < 1 / 10000 ->
+  bisection (fun x => Ok (g x)) {| b_lower := lo; b_init := init; b_upper := hi |} tol cap = Ok (bs_x r).
+Proof. exact Proofs.Bisect.c06_exit_before_cap_is_ok. Qed.
+Check c06_exit_before_cap_is_ok : forall (g : R -> R) lo init hi tol cap r L X,
+  continuity g -> lo <= init <= hi -> g lo * g hi <= 0 ->
+  bis_loop (fun x => Ok (g x)) tol cap cap (bis_start {| b_lower := lo; b_init := init; b_upper := hi |}) = Ok r ->
+  (bs_iter r < cap)%nat -> 0 <= L ->
+  (forall a b, lo <= a <= hi -> lo <= b <= hi -> Rabs (g a - g b) <= L * Rabs (a - b)) ->
+  (forall x, lo <= x <= hi -> Rabs x <= X) -> L * (tol / 100 * X) < 1 / 10000 ->
+  bisection (fun x => Ok (g x)) {| b_lower := lo; b_init := init; b_upper := hi |} tol cap = Ok (bs_x r).
+Print Assumptions c06_exit_before_cap_is_ok.
 
 (* after repair e42ded6: a root at the lower end is returned *)
 Theorem c06_root_at_lower_end : forall (f : R -> res R) lo init hi tol cap vm,
@@ -131,15 +156,15 @@ Check c06_root_at_lower_end : forall (f : R -> res R) lo init hi tol cap vm,
   bisection f {| b_lower := lo; b_init := init; b_upper := hi |} tol cap = Ok lo.
 Print Assumptions c06_root_at_lower_end.
 
-(* why the converse is only partial: even in exact arithmetic a bracketed simple root with a budget of
-   1200 is answered NoConvergence when init is the first midpoint and the second midpoint is 0
-   (the stale relative change; finding F-C06-STALE-ZERO, also observed on the real code) *)
-Theorem c06_converse_counterexample : bisection (fun x => Ok (x - 1 / 2)) {| b_lower := -3; b_init := -1; b_upper := 1 |} (1 / 100000) 1200
-    = Err ENoConvergence.
-Proof. exact Proofs.Bisect.c06_converse_counterexample. Qed.
-Check c06_converse_counterexample : bisection (fun x => Ok (x - 1 / 2)) {| b_lower := -3; b_init := -1; b_upper := 1 |} (1 / 100000) 1200
-    = Err ENoConvergence.
-Print Assumptions c06_converse_counterexample.
+(* regression of the repaired finding F-C06-STALE-ZERO (8dfb6bc): init is the first midpoint and the second
+   midpoint is 0; the relative change there is INFINITY now, the loop goes on and returns the root
+   (before the repair: Err ENoConvergence, in the model and in the real code) *)
+Theorem c06_stale_zero_repaired : bisection (fun x => Ok (x - 1 / 2)) {| b_lower := -3; b_init := -1; b_upper := 1 |} (1 / 100000) 1200
+    = Ok (1 / 2).
+Proof. exact Proofs.Bisect.c06_stale_zero_repaired. Qed.
+Check c06_stale_zero_repaired : bisection (fun x => Ok (x - 1 / 2)) {| b_lower := -3; b_init := -1; b_upper := 1 |} (1 / 100000) 1200
+    = Ok (1 / 2).
+Print Assumptions c06_stale_zero_repaired.
 
 (* non-vacuity: x^2 - 4 on [2, 5] (root at the lower end) returns Ok 2, so the hypotheses of
    c06_sound / c06_sound_simple / c06_root_at_lower_end are satisfiable *)
